@@ -268,6 +268,16 @@ func (vc *VC) readClock(st *State) *Term {
 // ---------------------------------------------------------------------------
 // builtins
 
+// patternSafe: boolean connectives and ite are not allowed inside quantifier patterns.
+func patternSafe(t string) bool {
+	for _, bad := range []string{"(not ", "(ite ", "(and ", "(or ", "(=> ", "(= ", "(< ", "(<= ", "(> ", "(>= ", "(forall ", "(exists "} {
+		if strings.Contains(t, bad) {
+			return false
+		}
+	}
+	return true
+}
+
 func numeral(t *Term) (int, bool) {
 	n, err := strconv.Atoi(t.S)
 	return n, err == nil
@@ -342,16 +352,24 @@ func (vc *VC) builtin(st *State, f *Frame, b *ssa.Builtin, c *ssa.CallCommon, ar
 			} else if len(excl) > 1 {
 				cond = "(and " + strings.Join(excl, " ") + ")"
 			}
-			st.assume(T_(sortBool, fmt.Sprintf("(forall ((%s Int)) (! (=> %s (= (select %s %s) (select %s %s))) :pattern ((select %s %s)) :pattern ((select %s %s))))",
-				q, cond, newArr.S, q, oldArr.S, q, newArr.S, q, oldArr.S, q)))
+			pat2 := ""
+			if patternSafe(oldArr.S) {
+				pat2 = fmt.Sprintf(" :pattern ((select %s %s))", oldArr.S, q)
+			}
+			st.assume(T_(sortBool, fmt.Sprintf("(forall ((%s Int)) (! (=> %s (= (select %s %s) (select %s %s))) :pattern ((select %s %s))%s))",
+				q, cond, newArr.S, q, oldArr.S, q, newArr.S, q, pat2)))
 		} else {
 			newArr = vc.fresh("apparr", as)
 			q := fmt.Sprintf("ai%d", vc.nfresh)
 			vc.nfresh++
 			end := Bin(sortInt, "+", base, sliceLen(t))
 			// quantified over absolute positions so that the triggers are free of arithmetic
-			st.assume(T_(sortBool, fmt.Sprintf("(forall ((%s Int)) (! (=> (and (<= %s %s) (< %s %s)) (= (select %s %s) (select %s %s))) :pattern ((select %s %s)) :pattern ((select %s %s))))",
-				q, sliceOff(s).S, q, q, base.S, newArr.S, q, oldArr.S, q, newArr.S, q, oldArr.S, q)))
+			pat2 := ""
+			if patternSafe(oldArr.S) {
+				pat2 = fmt.Sprintf(" :pattern ((select %s %s))", oldArr.S, q)
+			}
+			st.assume(T_(sortBool, fmt.Sprintf("(forall ((%s Int)) (! (=> (and (<= %s %s) (< %s %s)) (= (select %s %s) (select %s %s))) :pattern ((select %s %s))%s))",
+				q, sliceOff(s).S, q, q, base.S, newArr.S, q, oldArr.S, q, newArr.S, q, pat2)))
 			st.assume(T_(sortBool, fmt.Sprintf("(forall ((%s Int)) (! (=> (and (<= %s %s) (< %s %s)) (= (select %s %s) (select %s (+ (- %s %s) %s)))) :pattern ((select %s %s))))",
 				q, base.S, q, q, end.S, newArr.S, q, srcArr.S, q, base.S, sliceOff(t).S, newArr.S, q)))
 		}
